@@ -7,7 +7,7 @@
        steps — and everything they produce — are the same;
    (3) while a slice is unfinished the guarded calls are refused without effect. *)
 From Ink.Engine Require Import Api Tie.
-From Ink.Shell Require Import Frame FrameStep Slicing RejectProofs.
+From Ink.Shell Require Import Frame FrameStep Slicing RejectProofs HostFrame Balance BetweenCalls ResetProofs.
 
 Theorem step_independent_of_loop_bookkeeping :
   forall (a : bool) (r : N) (p : list N) (l : N) (I : iface) (sw : switches) (w : world),
@@ -43,3 +43,19 @@ Proof. exact RejectProofs.async_guard. Qed.
 Check async_guard : forall (w : world), w_async w = true ->
   exists msg, if_async_we_cant w = (OErr InvalidState msg, w).
 Print Assumptions async_guard.
+
+(* (4) "it always becomes usable again once the line completes": whenever, after any history of
+   story operations (time-limited continues included), no time-limited continue is pending any more,
+   the story is between calls — counter 0, no snapshot, rewind flag clear — so no guard refuses. *)
+Theorem usable_again_once_the_line_completes :
+  forall (I : iface) (ops : list story_op) (w : world),
+    Inv w -> no_panic I sw_now ops w ->
+    w_async (run_story_ops I sw_now ops w) = false ->
+    between_calls (run_story_ops I sw_now ops w).
+Proof. exact (fun I => BetweenCalls.between_calls_reachable I sw_now now_cont_check_first). Qed.
+Check usable_again_once_the_line_completes :
+  forall (I : iface) (ops : list story_op) (w : world),
+    Inv w -> no_panic I sw_now ops w ->
+    w_async (run_story_ops I sw_now ops w) = false ->
+    between_calls (run_story_ops I sw_now ops w).
+Print Assumptions usable_again_once_the_line_completes.
